@@ -3,7 +3,7 @@
    (lexer -> token stream -> parser -> transforms), proofs in proofs/DeclExamples.v. *)
 From Coq Require Import List NArith Bool Arith.
 Import ListNotations.
-From PV Require Import Regex Base LexTables NodeModel ParserBase ParserDecl ParserMain Api DeclExamples AstSpec DeclProofs DeclRefine.
+From PV Require Import Regex Base LexTables NodeModel ParserBase ParserDecl ParserMain Api DeclExamples AstSpec DeclProofs DeclRefine BuildDecls.
 
 (* array of pointers to functions returning pointer to int: derivations from the identifier outward *)
 Theorem C03_inside_out :
@@ -61,3 +61,11 @@ Theorem C03_pointer_order : forall (P: Type) f (s s': pstate P) p, p_pointer P f
   exists stars, stars <> [] /\ p_pointer_stars P f s = Ok (stars, s') /\ p = build P (rev (map (mkptr P) stars)) VNone.
 Proof. exact p_pointer_ok. Qed.
 Print Assumptions C03_pointer_order.
+
+(* "each declared entity gets its own Decl": the loop of _build_declarations over a declarator list of ANY length
+   returns exactly one node per declarator, in source order, the i-th built by build_one from the i-th declarator *)
+Theorem C03_one_decl_per_declarator : forall (P: Type) ds spec it tns (s: pstate P) decls spec' s',
+  build_loop P spec it tns ds s = Ok ((decls, spec'), s') ->
+  Forall2 (fun d r => exists sp sp' sa sb, build_one P sp it tns d sa = Ok ((r, sp'), sb)) ds decls.
+Proof. exact build_loop_one_per_declarator. Qed.
+Print Assumptions C03_one_decl_per_declarator.
